@@ -201,6 +201,7 @@ def twin_worker(job):
             if r == 'unsat':
                 D.STATS.reach_failed -= 1
                 continue
+            pair_reachable = (r == 'sat')      # 'unknown' (solver deadline): the two paths may be incompatible
             for nm, a, b in zip(outs, p1.value, p2.value):
                 if nm == "infeed":
                     s1 = set(int(v) for v in a)
@@ -209,6 +210,10 @@ def twin_worker(job):
                     D.STATS.obligations += 1
                     if s1 == s2:
                         D.STATS.rewriter += 1
+                    elif not pair_reachable:
+                        # a structural difference between two paths that were not shown to be jointly reachable is no
+                        # counterexample: reported as inconclusive
+                        job.setdefault("_inconclusive", []).append("%s.infeed on a path pair of unknown joint reachability" % job["twin"])
                     else:
                         viol.append({"fingerprint": "C07/twin/%s/%s" % (job["twin"], nm),
                                      "detail": {"twin": job["twin"], "output": nm, "np": sorted(s1), "numba": sorted(s2)},
@@ -223,6 +228,8 @@ def twin_worker(job):
                         D.STATS.obligations += 1
                         if is_nan(x) and is_nan(y):
                             D.STATS.rewriter += 1
+                        elif nm not in JAC and not pair_reachable:
+                            job.setdefault("_inconclusive", []).append("%s.%s NaN on one side, path pair of unknown joint reachability" % (job["twin"], nm))
                         elif nm not in JAC:
                             viol.append({"fingerprint": "C07/twin/%s/%s" % (job["twin"], nm),
                                          "detail": {"twin": job["twin"], "output": nm, "nan": "one side only"},
